@@ -29,8 +29,8 @@ const modPath = "example.com/m"
 // extTagOnly widens the domain by directories whose only Go file is build-tagged while
 // `build-tags: sometag` is configured (see the report: recursive discovery does not apply
 // build-tags). build-tags is not among the parameters the property quantifies over, so this is
-// off by default; C07_EXT_TAGONLY=1 turns it on.
-var extTagOnly = os.Getenv("C07_EXT_TAGONLY") == "1"
+// on by default since /repo applies build-tags to the discovery; C07_EXT_TAGONLY=0 turns it off.
+var extTagOnly = os.Getenv("C07_EXT_TAGONLY") != "0"
 
 // ---- case -------------------------------------------------------------------------------------
 
